@@ -478,23 +478,26 @@ def resolve_edit(msg, view, field_raw, value_raw, prev_time=None, next_time=None
     if not fields:
         return None
     f = fields[field_raw % len(fields)]
+    # odd raw values draw from a tiny pool per field, so that a later edit often restores an earlier value (a -> b -> a)
+    tiny = value_raw & 1
+    k = value_raw >> 1
     if f == "note":
-        v = 30 + value_raw % 70
+        v = [60, 62][k % 2] if tiny else 30 + value_raw % 70
     elif f == "velocity":
-        v = 1 + value_raw % 127
+        v = [64, 100][k % 2] if tiny else 1 + value_raw % 127
     elif f == "channel":
-        v = value_raw % 4
+        v = k % 2 if tiny else value_raw % 4
     elif f == "numerator":
-        v = [2, 3, 4, 5, 6][value_raw % 5]
+        v = [3, 4][k % 2] if tiny else [2, 3, 4, 5, 6][value_raw % 5]
     elif f == "denominator":
-        v = [2, 4, 8][value_raw % 3]
+        v = [4, 8][k % 2] if tiny else [2, 4, 8][value_raw % 3]
     elif f == "key":
-        v = Key(music.KEYS[value_raw % len(music.KEYS)])
+        v = Key(["C", "G"][k % 2]) if tiny else Key(music.KEYS[value_raw % len(music.KEYS)])
     elif f == "program":
-        v = value_raw % 128
+        v = [0, 40][k % 2] if tiny else value_raw % 128
     elif f == "time":
         if view == "rel":
-            v = 1 + value_raw % 48
+            v = [6, 12][k % 2] if tiny else 1 + value_raw % 48
         else:
             lo = prev_time if prev_time is not None else 0
             hi = next_time if next_time is not None else msg.time + 12
